@@ -135,6 +135,21 @@ impl Reg {
     }
 }
 
+#[cfg(qvnt_verif)]
+impl Reg {
+    pub fn verif_get_by_mask(&self, mask: N) -> N {
+        self.get_by_mask(mask)
+    }
+
+    pub fn verif_reset(&mut self, i_state: N) {
+        self.reset(i_state)
+    }
+
+    pub fn verif_q_mask(&self) -> N {
+        self.q_mask
+    }
+}
+
 impl fmt::Debug for Reg {
     fn fmt(&self, f: &mut fmt::Formatter<'_>) -> fmt::Result {
         let value =
